@@ -94,13 +94,18 @@ func (c *conn) close() {
 	c.add, c.next, c.subs = nil, nil, nil
 }
 func (s *Session) chanWake() {
+	// NOTE: shutdown closes the wake channel while holding the write lock, so
+	//       holding the read lock keeps the check and the send together.
+	s.lock.RLock()
 	if s.state.WakeClosed() || len(s.wake) >= cap(s.wake) {
+		s.lock.RUnlock()
 		return
 	}
 	select {
 	case s.wake <- wake:
 	default:
 	}
+	s.lock.RUnlock()
 }
 func (s *Session) chanWakeClear() {
 	if s.state.WakeClosed() {
